@@ -303,6 +303,8 @@ def check_property(prop, tier, seed):
             undecided.append('extraction failed in unit %s: %s' % (uname, e))
             continue
         collect_lemma_tags(unit)
+        for nm, why in unit.lost:
+            undecided.append('extraction of %s/%s failed (left out; the rest of the unit is still checked): %s' % (uname, nm, why))
         extra = []
         if tier == 'thorough':
             extra = ['--rlimit', '40']
@@ -339,7 +341,8 @@ def check_property(prop, tier, seed):
             undecided.append('canary verified in unit %s: trusted prelude is inconsistent' % uname)
             continue
         air = count_obligations(os.path.join(BUILD, '%s_%s.log' % (uname, prop), 'root-final.air'))
-        tagged = [f for f in unit.funcs if prop in f.tags and f.kind != 'item']
+        lost_names = set(nm for nm, _ in unit.lost)
+        tagged = [f for f in unit.funcs if prop in f.tags and f.kind != 'item' and f.outname not in lost_names]
         lemmas = [n for n, t in unit.lemma_tags.items() if prop in t]
         names = [f.outname for f in tagged] + lemmas
         if not names:
